@@ -37,13 +37,14 @@ class Semantics:
 
 
 class PathState:
-    __slots__ = ('env', 'memo', 'alias', 'tags', 'trail', 'seen')
+    __slots__ = ('env', 'memo', 'alias', 'tags', 'pay', 'trail', 'seen')
 
     def __init__(self, env):
         self.env = dict(env)
         self.memo = {}      # root key -> bool
         self.alias = {}     # (body id, local) -> root key
         self.tags = {}      # (body id, local) -> tag
+        self.pay = {}       # (body id, local) -> bool payload of an Option<bool> / Result<bool, _> value held in that local
         self.trail = []
         self.seen = set()
 
@@ -52,6 +53,7 @@ class PathState:
         p.memo = dict(self.memo)
         p.alias = dict(self.alias)
         p.tags = dict(self.tags)
+        p.pay = dict(self.pay)
         p.trail = list(self.trail)
         p.seen = set(self.seen)
         return p
@@ -100,6 +102,7 @@ class Interp:
         path.alias.pop(k, None)
         path.memo.pop(k, None)
         path.tags.pop(k, None)
+        path.pay.pop(k, None)
         kind = rv['k']
         src = None
         if kind == 'use':
@@ -128,11 +131,21 @@ class Interp:
             path.alias[k] = self.root(path, body, src['l'])
             if sk in path.tags:
                 path.tags[k] = path.tags[sk]
+            if sk in path.pay:
+                path.pay[k] = path.pay[sk]
+        elif self._payload_place(src) and (body.id, src['l']) in path.pay and body.locals[l] == 'bool':
+            path.memo[k] = path.pay[(body.id, src['l'])]
         elif upvars is not None and src['l'] == 1 and src.get('p') and src['p'][0].startswith('f:'):
             # read of a captured variable: _1.f:<i>.*
             name = src['p'][0][2:]
             if name in upvars and all(e == '*' for e in src['p'][1:]):
                 path.alias[k] = upvars[name]
+
+    @staticmethod
+    def _payload_place(pl):
+        """`(x as Variant).0`, possibly behind derefs"""
+        p = [e for e in (pl.get('p') or []) if e != '*']
+        return len(p) == 2 and p[0].startswith('d:') and p[1] in ('f:0', 'f:__0')
 
     def bool_value(self, path, body, local):
         r = self.root(path, body, local)
@@ -223,6 +236,9 @@ class Interp:
                     pl = op_place(t['d'])
                     zero = [tgt for v, tgt in t['ts'] if v == '0']
                     is_bool = pl is not None and not pl.get('p') and body.locals[pl['l']] == 'bool' and len(t['ts']) == 1 and zero
+                    if pl is not None and pl.get('p') and len(t['ts']) == 1 and zero and self._payload_place(pl) and (body.id, pl['l']) in path.pay:
+                        stack.append((t['else'] if path.pay[(body.id, pl['l'])] else zero[0], path))
+                        continue
                     if is_bool and (t.get('mo') or '').startswith(self.inert_macros):
                         # logging / tracing expansions: whether the event is enabled has no effect on the model
                         stack.append((zero[0], path))
